@@ -114,10 +114,13 @@ def mode_crossing(v, binary, acc):
         hx_ = common.hx(case["text"])
         L = len(b) // 2
         c = rs.choice([32, 16, 64]) if L < 16 else 64
-        for mode in ("fit", "cnt"):
+        # ("cnt0": the counting entry point with a chunk size below 2 is documented to be a plain assembly reporting zero)
+        for mode in ("fit", "cnt", "cnt0"):
             cmds = ["new 0 ext 256 H 0xcc", "opt 0 mov %s" % m[0], "opt 0 swap %s" % m[1], "opt 0 nobase %s" % m[2]]
             if mode == "fit":
                 cmds += ["chunk 0 %d" % c, "setoff 0 %d" % (c - 1), "asm 0 %s" % hx_]
+            elif mode == "cnt0":
+                cmds += ["setoff 0 %d" % (c - 1), "cnt 0 %d %s" % (rs.choice([0, 1, -1]), hx_)]
             else:
                 cmds += ["setoff 0 %d" % (c - 1), "cnt 0 %d %s" % (c, hx_)]
             cmds += ["getoff 0", "dump 0 %d %d" % (c - 1, c + L + 2)]
@@ -143,6 +146,8 @@ def mode_crossing(v, binary, acc):
             v.violation(cc, "%s-mode:instruction-bytes-differ-from-plain" % mode, "got %s want %s" % (d[:2 * (L + 1)], want))
         elif mode == "cnt" and a[4] != ("1" if L >= 2 else "0"):
             v.violation(cc, "cnt-mode:count", "count %s for a %d-byte instruction at offset c-1" % (a[4], L))
+        elif mode == "cnt0" and a[4] != "0":
+            v.violation(cc, "cnt0-mode:count", "count %s with a chunk size below 2" % a[4])
         else:
             mode_ok += 1
     return mode_ok
